@@ -431,7 +431,7 @@ def c08(tr, cx):
     joined = {}   # (nid, cid) -> sequence number of joining its current priority queue
     seq = 0
     for e in tr.events:
-        if e[0] == 'accept':
+        if e[0] == 'join':
             seq += 1; joined[(e[2], e[3])] = seq
         elif e[0] == 'classchange_wait':
             pm = spec['priorities']
@@ -890,9 +890,9 @@ def c13(tr, cx):
     spec = cx['spec']
     slog = tr.logs.slog
     exact = bool(spec['exact'])
-    pat = {}
+    pat = collections.defaultdict(list)   # several visits can start at one instant (zero service time + self-loop)
     for (stream, t, ind, v) in slog:
-        if stream[0] == 'ren': pat[(ind, stream[1], t)] = v
+        if stream[0] == 'ren': pat[(ind, stream[1], t)].append(v)
 
     def deadline(arr, p):
         return (Decimal(str(arr)) + Decimal(str(p))) if exact else arr + p
@@ -902,13 +902,13 @@ def c13(tr, cx):
             if not ordinary_finite(spec, nid): continue
             for i in nd['inds']:
                 if i['server'] is None and i['id'] not in nd['intr']:
-                    p = pat.get((i['id'], nid, i['arr']))
-                    if p is not None:
+                    ps = pat.get((i['id'], nid, i['arr']))
+                    if ps:
                         tr.count('C13.waiting_with_patience')
-                        if i['ren'] != INF and i['ren'] != deadline(i['arr'], p):
-                            tr.v('C13', 'reneging_date_not_arrival_plus_patience', (k, nid, i['id'], str(i['ren']), str(deadline(i['arr'], p))))
-                        if deadline(i['arr'], p) < s['t'] and i['ren'] != INF:
-                            tr.v('C13', 'waiting_beyond_patience', (k, s['t'], nid, i['id'], i['arr'], p))
+                        if i['ren'] != INF and not any(i['ren'] == deadline(i['arr'], p) for p in ps):
+                            tr.v('C13', 'reneging_date_not_arrival_plus_patience', (k, nid, i['id'], str(i['ren']), [str(deadline(i['arr'], p)) for p in ps]))
+                        if all(deadline(i['arr'], p) < s['t'] for p in ps) and i['ren'] != INF:
+                            tr.v('C13', 'waiting_beyond_patience', (k, s['t'], nid, i['id'], i['arr'], ps))
     served_before = set()
     for e in tr.events:
         if e[0] == 'renege':
@@ -928,15 +928,15 @@ def c13(tr, cx):
     for cid, r in cx['records']:
         if r.record_type == 'renege':
             tr.count('C13.renege_records')
-            p = pat.get((cid, r.node, r.arrival_date))
-            if p is None: tr.v('C13', 'renege_without_patience_sample', tuple(r))
-            elif r.exit_date != deadline(r.arrival_date, p): tr.v('C13', 'renege_not_at_patience', (cid, str(r.arrival_date), p, str(r.exit_date)))
+            ps = pat.get((cid, r.node, r.arrival_date))
+            if not ps: tr.v('C13', 'renege_without_patience_sample', tuple(r))
+            elif not any(r.exit_date == deadline(r.arrival_date, p) for p in ps): tr.v('C13', 'renege_not_at_patience', (cid, str(r.arrival_date), ps, str(r.exit_date)))
         elif r.record_type == 'service':
-            p = pat.get((cid, r.node, r.arrival_date))
-            if p is not None and nk(spec, r.node) == ('Node', 'int') and not spec.get('prio_preempt'):
+            ps = pat.get((cid, r.node, r.arrival_date))
+            if ps and nk(spec, r.node) == ('Node', 'int') and not spec.get('prio_preempt'):
                 tr.count('C13.served_with_patience')
-                if r.service_start_date > deadline(r.arrival_date, p):
-                    tr.v('C13', 'served_after_patience', (cid, r.node, str(r.arrival_date), p, str(r.service_start_date)))
+                if all(r.service_start_date > deadline(r.arrival_date, p) for p in ps):
+                    tr.v('C13', 'served_after_patience', (cid, r.node, str(r.arrival_date), ps, str(r.service_start_date)))
     bk = {cid for cid, r in cx['records'] if r.record_type == 'baulk'}
     rej = {cid for cid, r in cx['records'] if r.record_type == 'rejection'}
     exits = collections.defaultdict(set)
